@@ -423,8 +423,8 @@ Fixpoint serve (fuel : nat) (all : bool) (x : xsys) : xsys :=
     end
   end.
 
-(* apply one label: (concrete harness op if any, new state, segment text if an op was emitted) *)
-Definition apply_label (x : xsys) (lab : bytes) : option bytes * xsys * option bytes :=
+(* apply one label: (concrete harness op if any, new state, the segment if an op was emitted) *)
+Definition apply_label_g (x : xsys) (lab : bytes) : option bytes * xsys * option seg :=
   let '(head, arg) := match split_on 58 lab with
                       | [h] => (h, [])
                       | h :: a :: _ => (h, a)
@@ -436,8 +436,7 @@ Definition apply_label (x : xsys) (lab : bytes) : option bytes * xsys * option b
     let id := read_N idtxt in
     let run_op (op : bytes) (x1 : xsys) (g : seg) :=
         let '(x2, g2) := settle 4000 x1 g in
-        let '(txt, x3) := show_seg x2 g2 in
-        (Some op, x3, Some txt) in
+        (Some op, x2, Some g2) in
     if kind =? 78 then       (* N:<hexname> *)
       let '(st, out) := snotify (x_srv x) (unhex arg) in
       (None, set_net x st (x_c2s x) (x_s2c x ++ out), None)
@@ -476,6 +475,13 @@ Definition apply_label (x : xsys) (lab : bytes) : option bytes * xsys * option b
     else if existsb (N.eqb kind) [105; 99; 118; 121; 97] then
       let '(x1, g1) := issue x seg0 kind id arg in run_op lab x1 g1
     else (None, x, None)
+  end.
+
+(* ... and the segment as text *)
+Definition apply_label (x : xsys) (lab : bytes) : option bytes * xsys * option bytes :=
+  match apply_label_g x lab with
+  | (Some op, x2, Some g2) => let '(txt, x3) := show_seg x2 g2 in (Some op, x3, Some txt)
+  | (o, x', _) => (o, x', None)
   end.
 
 Fixpoint run_labels (x : xsys) (labs : list bytes) (ops segs : list bytes) : list bytes * list bytes :=
